@@ -33,7 +33,7 @@ PROP = "C20"
 LEVEL = "fault_enumeration"
 RULE = (
     "cases: (F) (population, stratum, fault, row/column position) - quick: drawn positions, thorough: every "
-    "eligible position of populations with <= 8 rows, plus pairs of faults; (L) (population, dtype variant); "
+    "eligible position of populations with <= 4 rows, plus pairs of faults; (L) (population, dtype variant); "
     "(U) (source dtype, target type, value vector).  Non-trivial (F) = the fault sits in a row that is not "
     "the first row and in a household with >= 2 persons (or is a column-level fault); (L) = at least two "
     "columns converted; (U) = a vector with a value that is not exactly representable in the target type or "
